@@ -1713,7 +1713,10 @@ class Architecture(Instance):
         return self._scope.lookup_name(self)
 
     def entity_name(self):
-        return self._scope.lookup_name(self._entity)
+        # the name used in the entity declaration (a name allocated in the
+        # scope of the architecture differs, when a port or signal
+        # of the entity has the same name as the entity)
+        return self._entity.name()
 
     def write_declarations(self):
         return self._scope.format_declarations()
